@@ -77,6 +77,12 @@ def _process_point_estimate(x, primals, point_estimates, insert):
 def sample_likelihood(likelihood: Likelihood, point_estimates, primals, key):
     lh, p_liquid = likelihood.freeze(point_estimates=point_estimates, primals=primals)
     white_sample = random_like(key, lh.left_sqrt_metric_tangents_shape)
+    # `random.normal` draws complex numbers with unit *total* variance but the
+    # metric `rsm^dagger rsm` requires unit variance in the real and imaginary
+    # part each
+    white_sample = tree_map(
+        lambda x: jnp.sqrt(2.0) * x if jnp.iscomplexobj(x) else x, white_sample
+    )
     return lh.left_sqrt_metric(p_liquid, white_sample)
 
 
